@@ -500,6 +500,8 @@ def check_joint(ctx, rep):
 
 
 def run(ctx, rep):
+    from sa import callbind
+    callbind.run_for(ctx, rep, 'C14', 11)
     rep.rule('C14.J', "the Jacobian term a transformed parameter contributes is that of its current value (C07.C rules): models expressed through constraining transforms")
     rep.explanation = (
         "C14.T: the _call of ELBO, KLpq, VR and CUBO is abstractly interpreted with log p = log q + c for every draw (c = log marginal "
